@@ -248,10 +248,61 @@ def cases(tier):
     return out
 
 
+def huge_case(case):
+    """rows x cols lattice with more than 2**16 stored neighbour pairs; sparse, vectorised oracle (every stored entry)"""
+    rows, cols, form, T = case["rows"], case["cols"], case["form"], case["T"]
+    n = rows * cols
+    idx = np.arange(n).reshape(rows, cols)
+    a = np.concatenate([idx[:, :-1].ravel(), idx[:-1, :].ravel()])
+    b = np.concatenate([idx[:, 1:].ravel(), idx[1:, :].ravel()])
+    i, j = np.concatenate([a, b]), np.concatenate([b, a])
+    order = np.lexsort((j, i))             # row-major coo
+    i, j = i[order], j[order]
+    lo, hi = np.minimum(i, j), np.maximum(i, j)
+    Sv = 1.0 + ((lo * 7 + hi * 3) % 11) / 4.0
+    hv = 0.5 + ((lo * 5 + hi) % 7) / 8.0
+    V = 1.0 + (np.arange(n) % 13) / 5.0
+    E = 6.0 * np.sin(0.37 * (np.arange(n) % cols)) + 0.004 * np.arange(n) - 30.0 * (np.arange(n) % 977 == 5)
+    D = 1.3
+    sm, hm = coo_array((Sv, (i, j)), shape=(n, n)), coo_array((hv, (i, j)), shape=(n, n))
+    fs, fh = form.split("/")
+    sm = sm.tocsr() if fs == "csr" else sm
+    hm = hm.tocsr() if fh == "csr" else hm
+    pre = f"C01|huge|{rows}x{cols}|form={form}|T={T}"
+    try:
+        Q = SQRA(energies=E, volumes=V, distances=hm, surfaces=sm).get_rate_matrix(D=D, T=T)
+    except Exception as e:
+        return {"violations": [viol(pre + "|raises", f"get_rate_matrix raised {type(e).__name__}: {str(e)[:100]}", case)],
+                "calls": 1, "nontrivial": True}
+    vs = []
+    want = D * Sv / (hv * V[i]) * np.exp(np.minimum(E[i] - E[j], 500.0) * 1000.0 / (2 * R_GAS * T))
+    X = csr_array((want, (i, j)), shape=(n, n))
+    Qc = csr_array(Q)
+    diag = Qc.diagonal()
+    off = (Qc - csr_array((diag, (np.arange(n), np.arange(n))), shape=(n, n))).tocsr()
+    off.eliminate_zeros(); off.sort_indices(); X.sort_indices()
+    if off.nnz != X.nnz or not np.array_equal(off.indices, X.indices) or not np.array_equal(off.indptr, X.indptr):
+        vs.append(viol(pre + "|pattern", "off-diagonal sparsity pattern differs from the input pattern", case,
+                       expected=int(X.nnz), observed=int(off.nnz)))
+    elif not close(off.data, X.data, 1e-9):
+        k = int(np.argmax(np.abs(off.data - X.data) / np.abs(X.data)))
+        vs.append(viol(pre + "|formula", f"off-diagonal entries differ from D*S/(h*V_i)*exp(min(dE,500)/(2RT)); first stored "
+                       f"entry that differs is number {int(np.nonzero(~np.isclose(off.data, X.data, rtol=1e-9, atol=0))[0][0])} "
+                       f"of {X.nnz}", case, expected=float(X.data[k]), observed=float(off.data[k])))
+    rs = np.asarray(Qc.sum(axis=1)).ravel()
+    if np.any(np.abs(rs) > 1e-12 * np.maximum(np.abs(diag), 1e-300)):
+        vs.append(viol(pre + "|rowsum", "rows do not sum to zero", case, observed=float(np.abs(rs).max())))
+    return {"violations": vs, "calls": 1, "nontrivial": True}
+
+
 def run(ctx):
     rep = Report(PROPERTY, "exploration")
     cs = cases(ctx.tier)
     res = ctx.pmap(run_case, cs, chunksize=4)
+    # sizes past 2**16 stored neighbour pairs (block-wise evaluation, index dtypes): 129 x 129 and 150 x 150 lattices
+    hc = [{"huge": True, "rows": r, "cols": c, "form": f, "T": T} for (r, c) in ((129, 129), (150, 150))
+          for f in ("csr/coo", "coo/csr") for T in (273.15,)]
+    res = res + ctx.pmap(huge_case, hc, chunksize=1, recheck=1)
     calls = sum(r["calls"] for r in res)
     for r in res:
         rep.add_violations(r["violations"])
@@ -271,4 +322,6 @@ def run(ctx):
 
 
 def replay(case):
+    if case.get("huge"):
+        return huge_case(case)["violations"]
     return run_case(case)["violations"]
